@@ -146,6 +146,62 @@ fn lca_pairs(ev: &Evidence, k: u32, pairs: Option<(u64, &mut SplitMix)>) -> Resu
     Ok(())
 }
 
+/// Level of the lowest common ancestor of leaves a and b in the full tree over 2^k leaves, by descending the recursive
+/// definition (halve the leaf range until the two leaves part): no table, so it reaches the 2^24-leaf limit.
+fn lca_level_by_descent(k: u32, a: u32, b: u32) -> u32 {
+    if a == b {
+        return 0;
+    }
+    let (mut lo, mut hi, mut level) = (0u64, 1u64 << k, k);
+    loop {
+        let mid = (lo + hi) / 2;
+        let (la, lb) = ((a as u64) < mid, (b as u64) < mid);
+        if la != lb {
+            return level;
+        }
+        if la {
+            hi = mid;
+        } else {
+            lo = mid;
+        }
+        level -= 1;
+    }
+}
+
+/// leaf_lca_level on the large trees, up to the leaf limit, both with leaf indices and (as the library calls it) node indices.
+fn lca_pairs_large(ev: &Evidence, k: u32, count: u64, rng: &mut SplitMix) -> Result<(), Violation> {
+    let n = 1u64 << k;
+    for i in 0..count {
+        // half of the pairs straddle a generated split point (so that every level, the top one included, is hit often)
+        let (a, b) = if i % 2 == 0 {
+            (rng.below(n) as u32, rng.below(n) as u32)
+        } else {
+            let lvl = 1 + rng.below(k as u64) as u32; // level of the intended common ancestor
+            let base = (rng.below(n >> lvl) << lvl) as u32;
+            let half = 1u32 << (lvl - 1);
+            (base + rng.below(half as u64) as u32, base + half + rng.below(half as u64) as u32)
+        };
+        let want = lca_level_by_descent(k, a, b);
+        for (x, y) in [(a, b), (b, a)] {
+            let got = leaf_lca_level(x, y);
+            if got != want {
+                return Err(fail("leaf_lca_level", n as u32, x as u64, format!("leaves ({x},{y}) of 2^{k}: got {got} want {want}")));
+            }
+            let got2 = leaf_lca_level(2 * x, 2 * y);
+            let want2 = if x == y { 0 } else { want + 1 };
+            if got2 != want2 {
+                return Err(fail("leaf_lca_level_nodes", n as u32, x as u64, format!("nodes ({},{}) of 2^{k} leaves: got {got2} want {want2}", 2 * x, 2 * y)));
+            }
+        }
+        if a != b {
+            ev.nontrivial(&(k, a, b, "lca-large"));
+        }
+    }
+    ev.eval(count);
+    ev.class(&format!("lca_pairs_sampled_2^{k}"));
+    Ok(())
+}
+
 fn sampled_large(ev: &Evidence, k: u32, count: u64, rng: &mut SplitMix) -> Result<(), Violation> {
     let n = 1u32 << k;
     let d = RefDescent { n_leaves: n };
@@ -282,6 +338,7 @@ pub fn run(ctx: &Ctx) -> ! {
         let pair_samples = ctx.tier.pick(200_000, 5_000_000);
         for k in 11..=24 {
             lca_pairs(&ev, k.min(16), Some((pair_samples / 14, &mut rng)))?;
+            lca_pairs_large(&ev, k, pair_samples / 28, &mut rng)?;
         }
         let node_samples = ctx.tier.pick(20_000, 1_000_000);
         for k in 13..=24 {
